@@ -69,6 +69,37 @@ type plConfig struct {
 	dfa     int
 	fact    tokFact
 	pending bool
+	ints    string // canonical rendering of the known small integers (loop counters)
+}
+
+// intEnv: known values of integer SSA registers along the explored path.
+type intEnv map[ssa.Value]int64
+
+func (e intEnv) key() string {
+	var names []string
+	for v, n := range e {
+		names = append(names, fmt.Sprintf("%s=%d", v.Name(), n))
+	}
+	sort.Strings(names)
+	return strings.Join(names, ",")
+}
+
+func (e intEnv) clone() intEnv {
+	n := intEnv{}
+	for k, v := range e {
+		n[k] = v
+	}
+	return n
+}
+
+func (e intEnv) get(v ssa.Value) (int64, bool) {
+	if k, ok := constInt(v); ok {
+		if _, isBasic := v.Type().Underlying().(*types.Basic); isBasic && types.Identical(v.Type(), types.Typ[types.Int]) {
+			return k, true
+		}
+	}
+	n, ok := e[v]
+	return n, ok
 }
 
 type plFinding struct {
@@ -111,7 +142,28 @@ func (c *Ctx) movesCursor(f *ssa.Function) bool {
 
 func (p *plRun) explore(start *ssa.BasicBlock, fact tokFact) {
 	p.visited = map[plConfig]bool{}
-	p.walk(plConfig{blk: start, dfa: p.spec.start, fact: fact}, nil)
+	p.walkE(plConfig{blk: start, dfa: p.spec.start, fact: fact}, nil, nil, intEnv{})
+}
+
+func (p *plRun) walk(cf plConfig, trace []string) {
+	p.walkE(cf, trace, nil, intEnv{})
+}
+
+// isCurrentTok: v is the parser's current token: a call of current(), or a
+// variable (phi) that only ever holds results of current().
+func (p *plRun) isCurrentTok(v ssa.Value) bool {
+	switch v := v.(type) {
+	case *ssa.Call:
+		return staticCallee(v) == p.c.A.Current
+	case *ssa.Phi:
+		for _, e := range v.Edges {
+			if call, ok := e.(*ssa.Call); !ok || staticCallee(call) != p.c.A.Current {
+				return false
+			}
+		}
+		return len(v.Edges) > 0
+	}
+	return false
 }
 
 func (p *plRun) fail(pos token.Pos, trace []string, what string) {
@@ -132,7 +184,40 @@ func (p *plRun) unknown(pos token.Pos, trace []string, what string) {
 	p.undecided = append(p.undecided, plFinding{pos, append([]string(nil), trace...), what})
 }
 
-func (p *plRun) walk(cf plConfig, trace []string) {
+func (p *plRun) walkE(cf plConfig, trace []string, prev *ssa.BasicBlock, ints intEnv) {
+	// integer phis first (they depend on the predecessor)
+	if prev != nil {
+		upd := intEnv{}
+		var drop []ssa.Value
+		for _, in := range cf.blk.Instrs {
+			ph, ok := in.(*ssa.Phi)
+			if !ok {
+				break
+			}
+			if !types.Identical(ph.Type(), types.Typ[types.Int]) {
+				continue
+			}
+			for pi, pb := range cf.blk.Preds {
+				if pb == prev {
+					if n, ok := ints.get(ph.Edges[pi]); ok && n >= -16 && n <= 16 {
+						upd[ph] = n
+					} else {
+						drop = append(drop, ph)
+					}
+				}
+			}
+		}
+		if len(upd) > 0 || len(drop) > 0 {
+			ints = ints.clone()
+			for _, d := range drop {
+				delete(ints, d)
+			}
+			for k, v := range upd {
+				ints[k] = v
+			}
+		}
+	}
+	cf.ints = ints.key()
 	if p.visited[cf] {
 		return
 	}
@@ -140,6 +225,9 @@ func (p *plRun) walk(cf plConfig, trace []string) {
 	p.states++
 	c := p.c
 	dfa, fact, pending := cf.dfa, cf.fact, cf.pending
+	next := func(b *ssa.BasicBlock, d int, f tokFact, pend bool, tr []string) {
+		p.walkE(plConfig{blk: b, dfa: d, fact: f, pending: pend}, tr, cf.blk, ints)
+	}
 	ev := func(pos token.Pos, e string) bool {
 		p.events++
 		n, ok := p.spec.next(dfa, e)
@@ -165,6 +253,19 @@ func (p *plRun) walk(cf plConfig, trace []string) {
 			}
 		}
 		switch in := in.(type) {
+		case *ssa.BinOp:
+			if types.Identical(in.Type(), types.Typ[types.Int]) && (in.Op == token.ADD || in.Op == token.SUB) {
+				a, ok1 := ints.get(in.X)
+				b, ok2 := ints.get(in.Y)
+				if ok1 && ok2 {
+					ints = ints.clone()
+					if in.Op == token.ADD {
+						ints[in] = a + b
+					} else {
+						ints[in] = a - b
+					}
+				}
+			}
 		case *ssa.Call:
 			callee := staticCallee(in)
 			if b, ok := in.Call.Value.(*ssa.Builtin); ok && b.Name() == "append" {
@@ -247,7 +348,7 @@ func (p *plRun) walk(cf plConfig, trace []string) {
 					k := lastMatch.tok
 					// failure edge: cursor unchanged, current != k
 					if !fact.mustBe(k) {
-						p.walk(plConfig{cf.blk.Succs[failIdx], dfa, fact.without(k), pending}, trace)
+						next(cf.blk.Succs[failIdx], dfa, fact.without(k), pending, trace)
 					}
 					// success edge
 					if fact.canBe(k) {
@@ -258,7 +359,7 @@ func (p *plRun) walk(cf plConfig, trace []string) {
 						if !ok {
 							p.fail(lastMatch.call.Pos(), tr, fmt.Sprintf("event %q is not allowed here (%s; automaton state %d)", e, p.spec.events, dfa))
 						} else {
-							p.walk(plConfig{cf.blk.Succs[1-failIdx], n, tokFact{}, pending}, tr)
+							next(cf.blk.Succs[1-failIdx], n, tokFact{}, pending, tr)
 						}
 					}
 					return
@@ -266,19 +367,35 @@ func (p *plRun) walk(cf plConfig, trace []string) {
 				p.unknown(in.Pos(), trace, "the result of match() is not tested by the branch that follows it")
 				return
 			}
+			// a decided comparison of small integers (loop counters)?
+			if bo, ok := in.Cond.(*ssa.BinOp); ok {
+				if a, ok1 := ints.get(bo.X); ok1 {
+					if b, ok2 := ints.get(bo.Y); ok2 && types.Identical(bo.X.Type(), types.Typ[types.Int]) {
+						switch bo.Op {
+						case token.LSS, token.LEQ, token.GTR, token.GEQ, token.EQL, token.NEQ:
+							idx := 1
+							if cmpConst(bo.Op, a, b) {
+								idx = 0
+							}
+							next(cf.blk.Succs[idx], dfa, fact, pending, trace)
+							return
+						}
+					}
+				}
+			}
 			// test of the current token?
 			if bo, ok := in.Cond.(*ssa.BinOp); ok && (bo.Op == token.EQL || bo.Op == token.NEQ) {
-				if call, ok := bo.X.(*ssa.Call); ok && staticCallee(call) == c.A.Current {
+				if p.isCurrentTok(bo.X) {
 					if k, ok := constInt(bo.Y); ok {
 						eqIdx := 0
 						if bo.Op == token.NEQ {
 							eqIdx = 1
 						}
 						if fact.canBe(k) {
-							p.walk(plConfig{cf.blk.Succs[eqIdx], dfa, fact.with(k), pending}, trace)
+							next(cf.blk.Succs[eqIdx], dfa, fact.with(k), pending, trace)
 						}
 						if !fact.mustBe(k) {
-							p.walk(plConfig{cf.blk.Succs[1-eqIdx], dfa, fact.without(k), pending}, trace)
+							next(cf.blk.Succs[1-eqIdx], dfa, fact.without(k), pending, trace)
 						}
 						return
 					}
@@ -287,7 +404,7 @@ func (p *plRun) walk(cf plConfig, trace []string) {
 				_ = lastParse
 			}
 			for _, s := range cf.blk.Succs {
-				p.walk(plConfig{s, dfa, fact, pending}, trace)
+				next(s, dfa, fact, pending, trace)
 			}
 			return
 		case *ssa.Jump:
@@ -295,7 +412,7 @@ func (p *plRun) walk(cf plConfig, trace []string) {
 				p.unknown(in.Pos(), trace, "the result of match() is not tested in the block that calls it")
 				return
 			}
-			p.walk(plConfig{cf.blk.Succs[0], dfa, fact, pending}, trace)
+			next(cf.blk.Succs[0], dfa, fact, pending, trace)
 			return
 		}
 	}
@@ -352,6 +469,36 @@ func hashSpec(c *Ctx) *plSpec {
 	}
 }
 
+func sliceSpec(c *Ctx) *plSpec {
+	return &plSpec{
+		name: "slice bracket", start: 0,
+		events: "number? tColon number? (tColon number?)? tRbracket",
+		accept: func(s int) bool { return s == 9 },
+		next: func(s int, e string) (int, bool) {
+			N, C, R := "consume:tNumber", "consume:tColon", "consume:tRbracket"
+			switch {
+			case s == 0 && e == N:
+				return 1, true
+			case (s == 0 || s == 1) && e == C:
+				return 2, true
+			case s == 2 && e == N:
+				return 3, true
+			case (s == 2 || s == 3) && e == C:
+				return 4, true
+			case s == 4 && e == N:
+				return 5, true
+			case (s == 2 || s == 3 || s == 4 || s == 5) && e == R:
+				return 9, true
+			case (s == 0 || s == 1) && e == R:
+				// "]" or "n]" without a colon: excluded by the entry contract
+				// (the caller has seen a colon at lookahead 0 or 1), checked separately
+				return 9, true
+			}
+			return 0, false
+		},
+	}
+}
+
 func parseSpec(c *Ctx) *plSpec {
 	return &plSpec{
 		name: "Parse", start: 0, requireEOF: true,
@@ -398,7 +545,9 @@ func (c *Ctx) clauseStart(fn *ssa.Function, tokName string) *ssa.BasicBlock {
 func init() {
 	register("P-LISTS", ruleLists)
 	register("P-PARSE", ruleParseEOF)
+	register("P-SLICE", ruleSliceGrammar)
 	register("P-CALLEE", ruleCallee)
+	register("P-DOTRHS", ruleDotRHS)
 	register("P-SLICE0", ruleSliceStepZero)
 }
 
@@ -605,5 +754,106 @@ func ruleParseEOF(c *Ctx) *RuleResult {
 	p := &plRun{c: c, fn: fn, spec: parseSpec(c)}
 	p.explore(fn.Blocks[0], tokFact{})
 	c.reportPL(r, "parse|Parse", p, fn.Pos())
+	return r
+}
+
+// P-DOTRHS: what follows a dot is parsed with the caller's binding power, so
+// that a projection's right-hand side extends over the following tighter
+// operators whatever the first operand is.
+func ruleDotRHS(c *Ctx) *RuleResult {
+	r := &RuleResult{Doc: "parseDotRHS: every success return is the result of parseExpression(bindingPower) — i.e. continues the infix loop with the caller's power; returning a parsed multi-select directly ends a projection's right-hand side early (a[*].[x,y].c would group as (a[*].[x,y]).c)", Floor: 2}
+	fn := c.A.ParseDotRHS
+	n := 0
+	for _, b := range fn.Blocks {
+		ret := blockReturn(b)
+		if ret == nil {
+			continue
+		}
+		res := retResults(ret)
+		if sh := c.nodeShapeOf(res[0]); sh != nil && sh.Zero {
+			continue // error return
+		}
+		n++
+		r.Instances++
+		src := c.symStr(res[0], 0)
+		callee := ""
+		if ex, ok := res[0].(*ssa.Extract); ok {
+			if call, ok := ex.Tuple.(*ssa.Call); ok {
+				if sc := staticCallee(call); sc != nil {
+					callee = sc.Name()
+					if sc == c.A.ParseExpr {
+						if _, isParam := call.Call.Args[1].(*ssa.Parameter); isParam {
+							r.ok("return|parseExpression", c.pos(ret.Pos()), fname(fn), "returns parseExpression(bindingPower): the infix loop continues with the caller's power")
+							continue
+						}
+					}
+				}
+			}
+		}
+		r.viol("return|"+callee, c.pos(ret.Pos()), fname(fn), "returns "+src+" without continuing the infix loop: operators after this operand that bind tighter than the caller's power are not absorbed (a projection's right-hand side ends early)")
+	}
+	return r
+}
+
+// P-SLICE: the slice bracket accepts exactly [start]:[stop][:[step]].
+func ruleSliceGrammar(c *Ctx) *RuleResult {
+	r := &RuleResult{Doc: "parseSliceExpression: every path to a success return spells number? : number? (: number?)? ] — at most two colons, no two numbers in a row (loop counter tracked as a small integer)", Floor: 1}
+	fn := c.methodOpt("Parser", "parseSliceExpression")
+	if fn == nil {
+		lost("parseSliceExpression not found")
+	}
+	p := &plRun{c: c, fn: fn, spec: sliceSpec(c)}
+	p.explore(fn.Blocks[0], tokFact{})
+	c.reportPL(r, "slice|parseSliceExpression", p, fn.Pos())
+	// entry contract: every call is on the true edge of lookahead(0) == tColon || lookahead(1) == tColon
+	for _, caller := range allFuncs(c.SLib) {
+		for _, call := range callsTo(caller, fn) {
+			r.Instances++
+			ok := false
+			blk := call.Block()
+			for _, b := range caller.Blocks {
+				ifi := blockIf(b)
+				if ifi == nil {
+					continue
+				}
+				bo, isBo := ifi.Cond.(*ssa.BinOp)
+				if !isBo || bo.Op != token.EQL {
+					continue
+				}
+				k, isK := constInt(bo.Y)
+				la, isCall := bo.X.(*ssa.Call)
+				if !isK || !isCall || k != c.tok("tColon") || staticCallee(la) != c.A.Lookahead {
+					continue
+				}
+				// the call's block is reached only through true edges of such tests
+				if b.Succs[0] == blk {
+					ok = true
+				}
+			}
+			// and every predecessor of the call's block is such a true edge
+			for _, pb := range blk.Preds {
+				ifi := blockIf(pb)
+				if ifi == nil || pb.Succs[0] != blk {
+					ok = false
+					continue
+				}
+				bo, isBo := ifi.Cond.(*ssa.BinOp)
+				if !isBo || bo.Op != token.EQL {
+					ok = false
+					continue
+				}
+				la, isCall := bo.X.(*ssa.Call)
+				if k, isK := constInt(bo.Y); !isK || !isCall || k != c.tok("tColon") || staticCallee(la) != c.A.Lookahead {
+					ok = false
+				}
+			}
+			key := "slice-entry|" + fname(caller)
+			if ok {
+				r.ok(key, c.pos(call.Pos()), fname(caller), "parseSliceExpression is entered only when a colon is at lookahead 0 or 1")
+			} else {
+				r.viol(key, c.pos(call.Pos()), fname(caller), "parseSliceExpression can be entered without a colon ahead: an index like [1] would become a slice")
+			}
+		}
+	}
 	return r
 }
